@@ -83,7 +83,7 @@ def main():
             t = time.time()
             # first pass without the deeper search (fast); the property the seed was written against gets the search as
             # well when the first pass misses it
-            rc, out = sh(envp + "VERIF_NO_SEARCH=1 ./check %s --tier quick --no-evidence%s" % (pid, " --no-lean" if iso else ""), cwd=V)
+            rc, out = sh(envp + ("" if "--search-all" in sys.argv else "VERIF_NO_SEARCH=1 ") + "./check %s --tier quick --no-evidence%s" % (pid, " --no-lean" if iso else ""), cwd=V)
             if not any(l.startswith("VIOLATION") and "no-failing-input-found" not in l for l in out.split("\n")) and pid == sid[:3]:
                 rc, out = sh(envp + "./check %s --tier quick --no-evidence%s" % (pid, " --no-lean" if iso else ""), cwd=V)
                 searched = True
